@@ -32,7 +32,7 @@ def answer (p : Proc) (ok : Bool) : String :=
 def faultLine (st : FaultSt) (line : String) : FaultSt × String :=
   match words line with
   | ["case", _] => ({}, "case")
-  | ["finv"] => (st, match st.p with | none => "nowal" | some p => if finvB p then "true" else "false")
+  | ["finv"] => (st, match st.p with | none => "nowal" | some p => if finvSB p then "true" else "false")
   | ["frestart"] =>
     match st.p with
     | none => (st, "err")
